@@ -11,25 +11,25 @@ ROOT = Path(__file__).resolve().parent.parent
 DESIGN = ROOT / "DESIGN.md"
 
 DECIDED = {
-    "C01": ("composition law", "**interpretation** of `Series/Parallel._impedance` on 1177 zero/inf/tiny/generic child patterns; index-set abstract interpretation in `_calculate_impedances`; dispatch order, constructor, builder and recompute rules"),
+    "C01": ("composition law", "**interpretation** of `Series/Parallel._impedance` on 1177 zero/inf/tiny/generic child patterns plus edit-then-evaluate histories, and of `_calculate_impedances` on 779 (kind × frequency vector) cases; symbolic fold summaries; constructor, builder and recompute rules"),
     "C02": ("numeric = equation for all registered elements, 243 Tlm configurations", "term extraction + equality ladder, case distinctions (Piecewise) decided case by case; substitution table of `to_sympy` interpreted; no memoised limit"),
     "C03": ("partial: language agreement emitter↔tokenizer↔parser, stack discipline, order, limits", "string abstraction of the emitter, **interpretation** of `Parser.param/parameters` and of the tokenizer on the emitter's shapes, order domain for limit transfer, def-use"),
     "C04": ("escape model of `parse_cdc`", "reachability with triage table, Optional-use rule, recursion cycles, fresh containers, **bounded-exhaustive malformed parameter tails** (7381) through the interpreted parser"),
     "C05": ("the data set as a state machine", "**explicit-state exploration** of the interpreted `DataSet` (28 initial states, all operation pairs; triples in the thorough tier) against a list-of-triples model; freshness/mutation summaries; dictionary round-trip keys"),
-    "C06": ("partial: the repository's own tables and dataflow", "**interpretation** of `_detect_columns` on 312 header rows and of `_split_sweeps` on all orderings of 1..6 points; def-use in `_extract_data`; per-layout column/sign table; dispatch table; fresh separator list"),
-    "C07": ("design matrix ≡ model in 36 configurations", "translation validation of the matrix builders against the circuit they describe; exact zero guards; single writer; stateless pipeline"),
+    "C06": ("partial: the repository's own tables and dataflow", "**interpretation** of `_detect_columns` on 312 header rows, of `_extract_data` on 192 small tables and of `_split_sweeps` on all orderings of 1..6 points; per-layout column/sign table; dispatch table; fresh separator list"),
+    "C07": ("design matrix ≡ model in 36 configurations", "translation validation of the matrix builders against the circuit they describe, the column terms read back from an **interpretation** of each builder on a matrix stand-in; exact zero guards; single writer; stateless pipeline"),
     "C08": ("provenance of every reported residual / χ²", "def-use resolver with reaching definitions (phi), identity of the residual term, impedance source of results carrying a circuit"),
     "C09": ("unit invariance of the linear pipeline", "homogeneity by substitution, unit table, reviewed nullifying constants, exact zero guards, provenance of the pseudo-χ² weight through callers"),
     "C10": ("**two clauses**: suggestion inside the reported limits; index space of the representation choice", "def-use provenance in `_suggest_using_default` / `suggest_num_RC` / `_suggest_representation`"),
-    "C11": ("partial: formula, weights, pairing, window, statelessness", "**interpretation** of `_reconstruct` on a symbolic grid (quad ↦ Int, derivator ↦ D), factorisation of the offset residual, worker-tuple agreement, stateless rule"),
-    "C12": ("partial: constraint wiring", "def-use by position, must-pass-through of the final `_from_lmfit`, copy discipline"),
+    "C11": ("partial: formula, weights, pairing, window, statelessness", "**interpretation** of `_reconstruct` on a symbolic grid (quad ↦ Int, derivator ↦ D), of `_reconstruct_modulus_data` with the real worker on distinguishable interpolators (serial and reversed pool), and of `_generate_weights`; factorisation of the offset residual; stateless rule"),
+    "C12": ("partial: constraint wiring", "**interpretation** of `_to_lmfit`/`_from_lmfit` with stand-ins for lmfit.Parameters and elements; def-use by position, must-pass-through of the final `_from_lmfit`, copy discipline"),
     "C13": ("partial: kernels and closed forms", "term identity with the registered K/RQ equations, partial fractions, closed-form areas, eig pairing, per-pair freshness, trapezoid weights on symbolic arrays, no in-place writes into caller arrays"),
     "C14": ("state machine of the parameter API", "model checking over weak orderings (setters compiled from source) + **interpretation** of `__copy__/__deepcopy__/reset_parameters/reset_parameter` in every ordering; aliasing rules"),
     "C15": ("registry life cycle", "dynamic-globals inventory, transitive writes, duplicate guard, validation wiring, **interpretation** of `remove_elements` on a registry of stand-in classes"),
     "C16": ("names and identifiers", "one identifier source, running-flag table, writer/reader format agreement, diagram-label provenance, `set_label` and `generate_element_identifiers` **interpreted**, per-kind dispatch of `to_sympy` interpreted"),
     "C17": ("hazards", "fan-out twins, unordered fan-in keyed completely, randomness inventory, shared-object taint (through results holding circuit objects and local containers)"),
     "C18": ("budgets + option tables (partial: `evaluate_log_F_ext` only in its fixed-extension branch)", "progress-budget abstract interpretation; option tables by value sets"),
-    "C19": ("partial: wiring", "option→parameter forwarding against argparse dests and API signatures, provenance of reported values, must-pass-through emission on the CFG, per-data-set independence, dispatch tables"),
+    "C19": ("partial: wiring", "option→parameter forwarding against argparse dests and API signatures, provenance of reported values, must-pass-through emission on the CFG, per-data-set independence, dispatch tables, `parse_circuits` interpreted"),
     "C20": ("traversal, naming and **totality of both diagram exporters up to a bound**", "**interpretation** of `to_circuitikz` and `to_drawing` on every topology (all shapes ≤ 4 nodes, parser-admissible shapes ≤ 7; 5/8 thorough); kind-domain dispatch; naming rules shared with C16"),
 }
 
